@@ -138,11 +138,91 @@ func c04Size(rng *rand.Rand) int {
 	}
 }
 
+// all multisets (as ascending lists) of size n over the values 0..maxv
+func c04Multisets(n, maxv int) [][]float64 {
+	var out [][]float64
+	var rec func(start int, cur []float64)
+	rec = func(start int, cur []float64) {
+		if len(cur) == n {
+			out = append(out, append([]float64{}, cur...))
+			return
+		}
+		for v := start; v <= maxv; v++ {
+			rec(v, append(cur, float64(v)))
+		}
+	}
+	rec(0, nil)
+	return out
+}
+
+// all sequences of length n over the values 0..maxv
+func c04Sequences(n, maxv int) [][]float64 {
+	out := [][]float64{{}}
+	for i := 0; i < n; i++ {
+		var next [][]float64
+		for _, p := range out {
+			for v := 0; v <= maxv; v++ {
+				next = append(next, append(append([]float64{}, p...), float64(v)))
+			}
+		}
+		out = next
+	}
+	return out
+}
+
+// EXHAUSTIVE small-integer stream: every pair of samples with values in 0..3 and sizes 2..maxN for the
+// two-sample tests, every pair of sequences for the paired test, every sample for the one-sample test and
+// MeanCI.  Small integer data produce the coincidences random reals never do: bit-identical variances with
+// unequal sizes, equal means (T = 0), zero variance on one side, tied differences, integer T.
+func c04Exhaustive(tier string, emit func(interface{})) {
+	maxN := 4
+	if tier == "thorough" {
+		maxN = 5
+	}
+	var ms [][]float64
+	for n := 2; n <= maxN; n++ {
+		ms = append(ms, c04Multisets(n, 3)...)
+	}
+	k := 0
+	for _, x1 := range ms {
+		for _, x2 := range ms {
+			for op := 0; op <= 1; op++ {
+				emit(c04Case{Op: op, X1: toF64s(x1), X2: toF64s(x2), Alt: k%3 - 1})
+				k++
+			}
+		}
+	}
+	for n := 2; n <= 3; n++ {
+		seqs := c04Sequences(n, 3)
+		for _, x1 := range seqs {
+			for _, x2 := range seqs {
+				mu0 := []float64{0, 0, 0.5, -1}[k%4]
+				emit(c04Case{Op: 2, X1: toF64s(x1), X2: toF64s(x2), Mu0: F64(mu0), Alt: k%3 - 1})
+				k++
+			}
+		}
+	}
+	var all [][]float64
+	for n := 2; n <= 5; n++ {
+		all = append(all, c04Multisets(n, 3)...)
+	}
+	for _, xs := range all {
+		for _, mu0 := range []float64{0, 1, 1.5, 3} {
+			emit(c04Case{Op: 3, X1: toF64s(xs), Mu0: F64(mu0), Alt: k%3 - 1})
+			k++
+		}
+		for _, c := range []float64{0.5, 0.9, 0.95} {
+			emit(c04Case{Op: 4, X1: toF64s(xs), C: F64(c)})
+		}
+	}
+}
+
 func c04Gen(tier string, rng *rand.Rand, emit func(interface{})) {
 	mul := 1
 	if tier == "thorough" {
 		mul = 12
 	}
+	c04Exhaustive(tier, emit)
 	f := func(xs ...float64) []F64 { return toF64s(xs) }
 	// ---- error inputs and the smallest legal ones, every test, every alternative ----
 	for alt := -1; alt <= 1; alt++ {
@@ -152,16 +232,16 @@ func c04Gen(tier string, rng *rand.Rand, emit func(interface{})) {
 			emit(c04Case{Op: op, X1: f(1), X2: f(1, 2, 4), Alt: alt})
 			emit(c04Case{Op: op, X1: f(1, 2, 4), X2: f(3), Alt: alt})
 			emit(c04Case{Op: op, X1: f(1), X2: f(2), Alt: alt})
-			emit(c04Case{Op: op, X1: f(3, 3, 3), X2: f(5, 5), Alt: alt})   // both variances zero
-			emit(c04Case{Op: op, X1: f(3, 3, 3), X2: f(5, 6), Alt: alt})   // one variance zero
-			emit(c04Case{Op: op, X1: f(1, 2), X2: f(2, 4), Alt: alt})      // smallest legal
+			emit(c04Case{Op: op, X1: f(3, 3, 3), X2: f(5, 5), Alt: alt})    // both variances zero
+			emit(c04Case{Op: op, X1: f(3, 3, 3), X2: f(5, 6), Alt: alt})    // one variance zero
+			emit(c04Case{Op: op, X1: f(1, 2), X2: f(2, 4), Alt: alt})       // smallest legal
 			emit(c04Case{Op: op, X1: f(1, 2, 3), X2: f(3, 2, 1), Alt: alt}) // T = 0
 		}
 		emit(c04Case{Op: 2, X1: f(1, 2, 3), X2: f(1, 2), Alt: alt})
 		emit(c04Case{Op: 2, X1: f(), X2: f(), Alt: alt})
 		emit(c04Case{Op: 2, X1: f(1), X2: f(2), Alt: alt})
-		emit(c04Case{Op: 2, X1: f(1, 2, 3), X2: f(3, 4, 5), Alt: alt})           // zero-variance differences
-		emit(c04Case{Op: 2, X1: f(1, 2, 3), X2: f(3, 4, 5), Mu0: -2, Alt: alt})  // ... even at mu0 = mean
+		emit(c04Case{Op: 2, X1: f(1, 2, 3), X2: f(3, 4, 5), Alt: alt})          // zero-variance differences
+		emit(c04Case{Op: 2, X1: f(1, 2, 3), X2: f(3, 4, 5), Mu0: -2, Alt: alt}) // ... even at mu0 = mean
 		emit(c04Case{Op: 2, X1: f(1, 2, 4), X2: f(3, 3, 3), Mu0: 0.5, Alt: alt})
 		emit(c04Case{Op: 3, X1: f(), Alt: alt})
 		emit(c04Case{Op: 3, X1: f(7), Mu0: 1, Alt: alt})
